@@ -117,6 +117,9 @@ fn write_replay(prop: &str, c: &Case) -> String {
     }
     let path = format!("{dir}/{prop}-{:012x}.json", h & 0xffff_ffff_ffff);
     std::fs::write(&path, body).unwrap();
+    if let Some(t) = replay::plain_test(c) {
+        let _ = std::fs::write(path.replace(".json", "_test.rs"), t);
+    }
     path
 }
 
